@@ -225,31 +225,45 @@ func genItem(t *kernel.Tape, depth int) Item {
 	return it
 }
 
+// genUseLeaf draws one use of a script, css class or once handle.
+func genUseLeaf(t *kernel.Tape, ext map[*Node]*nodeExt, nOnce int) *Node {
+	uses := []string{"usescript", "onclick", "ontwo", "oncond", "onhx", "classof", "classtwo", "classcond", "oncemark", "oncewith", "lit", "text"}
+	k := uses[t.Choose(len(uses), "usekind")]
+	n := &Node{K: k, N: t.Choose(16, "n"), B: t.Bool("b")}
+	x := &nodeExt{M: t.Choose(16, "m")}
+	switch k {
+	case "classof":
+		c := t.Range(0, 4, "nitems")
+		for i := 0; i < c; i++ {
+			x.Items = append(x.Items, genItem(t, 0))
+		}
+	case "classtwo", "classcond":
+		x.Items = []Item{genItem(t, 1), genItem(t, 1)}
+	case "oncemark":
+		n.N = n.N % nOnce
+		n.S = fmt.Sprintf("h%d-%d", n.N, t.Choose(1000, "marker"))
+	case "text":
+		n.S = "plain"
+	}
+	ext[n] = x
+	return n
+}
+
+// fullC12 is the whole pool as a universe (used by worlds that mix uses into general trees).
+func fullC12(nOnce int) *c12u {
+	u := &c12u{Reg: map[string]bool{}, Scripts: scriptPool(), Css: cssPool()}
+	for i := 0; i < nOnce; i++ {
+		u.OnceWith = append(u.OnceWith, false)
+	}
+	return u
+}
+
 // genC12 draws a use tree.
 func genC12(t *kernel.Tape, ext map[*Node]*nodeExt, budget *int, depth int, nOnce int) *Node {
 	*budget--
-	uses := []string{"usescript", "onclick", "ontwo", "oncond", "onhx", "classof", "classtwo", "classcond", "oncemark", "oncewith", "lit", "text"}
 	inner := []string{"seq", "seq", "el", "ifelse", "callblock", "oncebody", "callnoblock", "join"}
 	if depth >= 4 || *budget <= 0 || t.Chance(3, 6, "leaf") {
-		k := uses[t.Choose(len(uses), "usekind")]
-		n := &Node{K: k, N: t.Choose(16, "n"), B: t.Bool("b")}
-		x := &nodeExt{M: t.Choose(16, "m")}
-		switch k {
-		case "classof":
-			c := t.Range(0, 4, "nitems")
-			for i := 0; i < c; i++ {
-				x.Items = append(x.Items, genItem(t, 0))
-			}
-		case "classtwo", "classcond":
-			x.Items = []Item{genItem(t, 1), genItem(t, 1)}
-		case "oncemark":
-			n.N = n.N % nOnce
-			n.S = fmt.Sprintf("h%d-%d", n.N, t.Choose(1000, "marker"))
-		case "text":
-			n.S = "plain"
-		}
-		ext[n] = x
-		return n
+		return genUseLeaf(t, ext, nOnce)
 	}
 	k := inner[t.Choose(len(inner), "innerkind")]
 	sub := func() *Node { return genC12(t, ext, budget, depth+1, nOnce) }
